@@ -277,6 +277,8 @@ impl SendCase {
             hops.push(format!("{}@{}", segs_to_string(segs), res.as_ref().map(urlrec).unwrap_or("~".into())));
             cur = res;
         }
+        // a further connection (if the code makes one) finds a peer that closes at once
+        hops.push("-@~".to_string());
         format!(
             "send {} {} {} {} {} {}",
             self.method,
